@@ -999,7 +999,8 @@ end instr
 or `retNilness` of a post-fixpoint (computed with the same summaries) of a well-formed function. -/
 def Certified (F : Func) (summ : Summ) (res : List VN) : Prop :=
   res = defaultSumm F.rf ∨
-  (wfFunc F = true ∧ ∃ sol, checkPost F summ sol = true ∧ retNilness F summ sol = res)
+  (wfFunc F = true ∧ ∃ sol, checkPost F summ sol = true ∧
+    ∀ (j : Nat) y, res[j]? = some y → ∃ x, (retNilness F summ sol)[j]? = some x ∧ leVN x y = true)
 
 theorem fold_ret_sound (F : Func) (n j : Nat) (x : SVal) (sf : Nat × List Nat → State)
     (l : List (Nat × List Nat)) (acc : List VN) (hj : j < n)
@@ -1046,7 +1047,11 @@ theorem func_sound (F : Func) (summ : Summ) (cr : Nat → List SVal → Prop) (r
   rcases hc with hdef | ⟨hwf, sol, hpost, hret⟩
   · subst hdef
     exact defaultSumm_sound F.rf rs (fun j x hx => (hrs j x hx).2)
-  · subst hret
+  · -- it suffices to show the claim for `retNilness` itself (`describes_mono`, proved below for lists)
+    suffices hmain : Describes (retNilness F summ sol) rs by
+      intro j y v hy hv
+      obtain ⟨x, hx, hxy⟩ := hret j y hy
+      exact gamma_leVN x y v hxy (hmain j x v hx hv)
     have hp := path_sound F summ cr sol hcr hwf hpost b σ hreach
     have h1 := run_sound F summ cr (F.block b).instrs false none (sol.at b) σ (env1, false) hcr
       (fun i hi => wf_instrOk F hwf b i hi) (fun c _ => And.intro (fun h => absurd h (by simp)) (fun h => absurd h (by simp))) hp hrun
@@ -1233,8 +1238,13 @@ theorem exec_F2 (cr : Nat → List SVal → Prop) : FuncExec F2 cr [.ptr false] 
     exact ⟨by simp [rdS, rd, env2_4], ⟨rfl, rfl⟩⟩
   | n + 1 => simp at hx
 
+/-- `retNilness … = res` gives the pointwise `⊑` that `Certified` asks for. -/
+theorem certified_of_eq (F : Func) (summ : Summ) (res : List VN) (hwf : wfFunc F = true) (sol : Sol)
+    (hpost : checkPost F summ sol = true) (heq : retNilness F summ sol = res) : Certified F summ res :=
+  Or.inr ⟨hwf, sol, hpost, fun j y hy => ⟨y, by rw [heq]; exact hy, leVN_refl y⟩⟩
+
 theorem cert_F2 : Certified F2 summ2 [⟨.maybe, .never⟩] :=
-  Or.inr ⟨by decide, solve F2 summ2, by decide, by decide⟩
+  certified_of_eq F2 summ2 _ (by decide) (solve F2 summ2) (by decide) (by decide)
 
 theorem hcert2 : ∀ g F, P2 g = some F → Certified F summ2 (summ2 g) := by
   intro g F h
@@ -1307,7 +1317,7 @@ theorem hcert3 : ∀ g F, P3 g = some F → Certified F summ3 (summ3 g) := by
   · subst hg
     have : F = F3 := by simpa [P3] using h.symm
     subst this
-    exact Or.inr ⟨by decide, solve F3 summ3, by decide, by decide⟩
+    exact certified_of_eq F3 summ3 _ (by decide) (solve F3 summ3) (by decide) (by decide)
   · simp [P3, hg] at h
 
 -- result_sound_always
@@ -1350,7 +1360,7 @@ theorem hcert4 : ∀ g F, P4 g = some F → Certified F summ4 (summ4 g) := by
   · subst hg
     have : F = F4 := by simpa [P4] using h.symm
     subst this
-    exact Or.inr ⟨by decide, solve F4 summ4, by decide, by decide⟩
+    exact certified_of_eq F4 summ4 _ (by decide) (solve F4 summ4) (by decide) (by decide)
   · simp [P4, hg] at h
 
 -- sa4023_sound: the reported comparison `h() == nil` is false: h returns a non-nil interface (holding a nil pointer)
